@@ -18,7 +18,7 @@ CLASSES = {'quick': ['SO2', 'SE2', 'SO3', 'SE3', 'Quaternion', 'UnitQuaternion',
            'thorough': ['SO2', 'SE2', 'SO3', 'SE3', 'Quaternion', 'UnitQuaternion', 'Twist2', 'Twist3', 'Plucker', 'SpatialVelocity',
                         'SpatialAcceleration', 'SpatialForce', 'SpatialMomentum']}
 FUNCS = ['index_matches_list', 'slice_matches_list', 'iter_len_match', 'step_matches_list', 'wrong_operand_rejected',
-         'construct_from_objects']
+         'construct_from_objects', 'dimension_length_matches_list']
 TIMEOUT = {'quick': 40, 'thorough': 120}
 
 
